@@ -443,6 +443,9 @@ def check(prog: list, ext: float | None, res: dict, ctx=None) -> list[tuple[str,
                 key = "I5-external-cancel-swallowed:while-cancelled-scope-active"
             else:
                 key = "I5-external-cancel-swallowed:scope-cancelled-before-delivery"
+            if not _uses_shield(prog):
+                # the shield-free form of this defect was repaired (known_findings.json, fixed): it must not come back
+                key += ":no-shield"
             out.append((key, f"external task.cancel() at t={ext_ev['t']} but the task ended '{outcome}' although unshielded checkpoints followed ({[s['id'] for s in later_unshielded][:3]})"))
         if ctx is not None and any(si["cancel_t"] is not None and abs(si["cancel_t"] - tr[ext_i]["t"]) <= 1e-9 for si in scope_info.values()):
             ctx.count("external_cancel_coinciding_with_deadline")
@@ -502,6 +505,14 @@ def run_shard(params: dict, ctx) -> None:
             ctx.violation(key, why, {"program": prog, "ext": ext, "outcome": res.get("outcome"), "trace_tail": [{k: v for k, v in e.items() if k not in ("enc",)} for e in res.get("trace", [])[-14:]]})
         if i == 0:
             ctx.sample({"program": prog, "external_cancel_at": ext, "outcome": res.get("outcome")})
+
+
+def _uses_shield(prog) -> bool:
+    if isinstance(prog, (list, tuple)):
+        if prog and prog[0] in ("shield", "shyield"):
+            return True
+        return any(_uses_shield(x) for x in prog)
+    return False
 
 
 def _fix_inf(x):
